@@ -39,6 +39,9 @@ def gen_ops(rnd):
         elif x < 0.45:
             # pipelined: the next passive command arrives while the first listener is still being opened
             ops.append(["burst", [rnd.choice(["PASV", "EPSV"]) for _ in range(rnd.randint(2, 3))]])
+        elif x < 0.52:
+            # USER again on the same control connection (the passive listener, if any, stays the session's)
+            ops.append(["relogin"])
         elif x < 0.65:
             ops.append(["xfer"])
         elif x < 0.80:
@@ -172,6 +175,9 @@ def run_case(case):
                             if pool is not None and bindable and not inflight:
                                 # a free, bindable port was in the pool: exhaustion was answered wrongly
                                 viol.append({"clause": "421-with-free-port", "subject": op[1], "detail": f"421 although ports {bindable} were free in the pool"})
+                    elif op[0] == "relogin":
+                        await peer.cmd("USER anonymous")
+                        info["relogins"] = info.get("relogins", 0) + 1
                     elif op[0] == "burst":
                         for v in op[1]:
                             peer.note("C", v)
@@ -337,6 +343,7 @@ def run_case(case):
                 "probe.port_retry_after_eaddrinuse": int(any(b[2] == errno.EADDRINUSE for b in binds) and len(got_ports) > 0),
                 "probe.pasv_and_close": info.get("pasv_close", 0),
                 "probe.pipelined_passive_commands": info.get("bursts", 0),
+                "probe.relogin_with_listener": info.get("relogins", 0),
                 "passive_ports_granted": len(got_ports),
             },
             "violations": out,
